@@ -64,6 +64,7 @@ def generate(ctx):
             for _ in range(per_start):
                 bits, mclass = gens.message(rng, max_len if rng.random() < 0.92 else ctx.pick(400, 2048) if rng.random() < 0.3 else ctx.pick(160, 700))
                 yield "roundtrip", dict(gcase, start=int(start), bits=bits, fast=fast, table=rand_table_spec(rng),
+                                        path=rng.random() < 0.1, verbose=rng.random() < 0.05, npstart=rng.random() < 0.5,
                                         vt=rng.choice(VTS) if rng.random() < 0.7 else rng.randint(1, 70), dtype=rng.choice(DTYPES), mclass=mclass, fam=fam)
 
 
@@ -80,8 +81,20 @@ def check_roundtrip(ctx, case):
     guard = ArgGuard(message=f_msg, accessor=f_acc, shuffles=f_shuf)
     live = int((G.out_degrees(acc) > 0).sum())
 
-    enc = monitored(dsw.encode, encode_budget(L, live), f_msg, f_acc, start, is_faster=fast, vt_length=vt,
-                    shuffles=f_shuf)
+    if case.get("npstart"):
+        start = __import__("numpy").int64(start)   # start vertices usually come out of numpy arrays (obtain_vertices)
+    import contextlib
+    import io
+    with contextlib.redirect_stdout(io.StringIO()):
+        enc = monitored(dsw.encode, encode_budget(L, live), f_msg, f_acc, start, is_faster=fast, vt_length=vt,
+                        shuffles=f_shuf, need_path=bool(case.get("path")), verbose=bool(case.get("verbose")))
+    if case.get("path") and enc.kind == "ok":
+        # with need_path the record of the state path is appended; the strand (and check) come first
+        if not (isinstance(enc.value, tuple) and len(enc.value) == (3 if vt > 0 else 2)):
+            ctx.fail("encode-shape", "need_path=True: encode returned %r" % (enc.value,))
+            return ctx.done("roundtrip", case, nontrivial)
+        enc.value = enc.value[:-1] if vt > 0 else enc.value[0]
+        ctx.cls("need_path")
     ctx.obs("encode_steps_over_budget", enc.steps / encode_budget(L, live))
     if enc.kind != "ok":
         ctx.fail("encode-" + enc.kind, "encode " + enc.describe())
@@ -101,8 +114,9 @@ def check_roundtrip(ctx, case):
     w = G.walk(acc, start, strand)
     if not w["ok"]:
         ctx.fail("not-a-walk", "strand %s leaves the graph at position %d (%s)" % (strand, w["pos"], w["reason"]))
-    dec = monitored(dsw.decode, decode_budget(len(strand), L), strand, L, f_acc, start, is_faster=fast,
-                    vt_check=check, shuffles=f_shuf)
+    with contextlib.redirect_stdout(io.StringIO()):
+        dec = monitored(dsw.decode, decode_budget(len(strand), L), strand, L, f_acc, start, is_faster=fast,
+                        vt_check=check, shuffles=f_shuf, verbose=bool(case.get("verbose")))
     ctx.obs("decode_steps_over_budget", dec.steps / decode_budget(len(strand), L))
     if dec.kind != "ok":
         ctx.fail("decode-" + dec.kind, "decode(%s) %s" % (strand, dec.describe()))
